@@ -206,13 +206,47 @@ func c7Clone(c *Ctx) {
 		}
 		ok := isFreshBufferDesc(got["buf"]) && got["EncoderConfig"] == "enc.EncoderConfig" && got["spaced"] == "enc.spaced" && got["openNamespaces"] == "enc.openNamespaces"
 		c.Check(ok, "R7.3", cl.String(), "clone-fields", cl.Pos(), "the clone shares only the immutable config and copies spaced/openNamespaces; its buffer is fresh from the pool (%v)", got)
-		// Clone copies bytes
-		okCopy := false
-		for _, call := range Calls(cln) {
-			if IsCallTo(call, "(*go.uber.org/zap/buffer.Buffer).Write") {
-				okCopy = Desc(Args(call)[0]) == "clone(enc).buf" && Desc(Args(call)[1]) == "Bytes(enc.buf)"
+		// Clone copies bytes: on every path (helpers inline) the parent's bytes are written into the clone's buffer,
+		// unless a branch established that there are none
+		rn := cln.Params[0].Name()
+		seqs, trunc := ConcPaths(cln, ConcCfg{
+			Inline: func(h *ssa.Function) bool { return h != cl },
+			Event: func(in ssa.Instruction, st *ConcState) string {
+				call, ok := in.(*ssa.Call)
+				if !ok {
+					return ""
+				}
+				if IsCallTo(call, "(*go.uber.org/zap/buffer.Buffer).Write", "(*go.uber.org/zap/buffer.Buffer).AppendBytes") {
+					a := Args(call)
+					if st.Desc(a[0]) == "clone("+rn+").buf" && st.Desc(a[1]) == "Bytes("+rn+".buf)" {
+						return "copy"
+					}
+					return "write(" + st.Desc(a[0]) + "," + st.Desc(a[1]) + ")"
+				}
+				return ""
+			},
+			Branch: func(cond ssa.Value, taken bool, st *ConcState) string {
+				d := st.Desc(cond)
+				for _, e := range []string{"len(Bytes(" + rn + ".buf))", "Len(" + rn + ".buf)"} {
+					if d == "("+e+" == 0)" && taken || (d == "("+e+" > 0)" || d == "("+e+" != 0)") && !taken {
+						return "empty"
+					}
+				}
+				return ""
+			},
+		})
+		okCopy := !trunc && len(seqs) > 0
+		nCopy := 0
+		for _, sq := range seqs {
+			switch {
+			case sq == "copy" || strings.HasSuffix(sq, "; copy") && !strings.Contains(sq, "write("):
+				nCopy++
+			case sq == "empty":
+			default:
+				okCopy = false
 			}
 		}
+		okCopy = okCopy && nCopy > 0
 		c.Check(okCopy, "R7.3", cln.String(), "copies-context-bytes", cln.Pos(), "Clone writes the parent's accumulated context bytes into the clone's own buffer")
 	}
 	iw := c.Method(CorePath, "ioCore", "With")
